@@ -5,8 +5,10 @@
      - ints / strings / bools keep the first non-zero value;
      - pointers and interface values (minimum ..., multipleOf, default, items, additionalProperties) keep the
        first non-nil one; two non-nil pointers are merged through the pointer (deep merge): for numbers the
-       pointee is overwritten when it is 0; for sub-schemas this is outside the model ([None]);
-     - maps (properties) are merged key by key; a key present on both sides is deep-merged: outside the model.
+       pointee is overwritten when it is 0; for sub-schemas (items, additionalProperties) the pointees are merged by these same rules;
+     - maps (properties) are merged key by key; a key present on both sides is deep-merged by these same rules.
+   The merge writes through the pointers of the first branch (a definition that is the first branch is modified in place): the model is
+   pure, the effect of that mutation on OTHER users of the definition is a recorded finding (C11-overlay-leaks-into-shared-definition).
    [None] = this list of branches is not modelled (the caller answers GUnmod). *)
 From GJS Require Export Base Bounds Regex Schema.
 
@@ -46,25 +48,47 @@ Definition merge_con (a b : scon) : scon :=
 Definition keys_disjoint {A B} (p : list (str * A)) (q : list (str * B)) : bool :=
   forallb (fun kv => negb (mem (fst kv) (map fst q))) p.
 
-(* one mergo.Merge(result, branch) *)
-Definition merge2 (d s : schema) : option schema :=
-  if negb (keys_disjoint (s_props s) (s_props d)) then None            (* deep merge of a shared property *)
-  else
-    match (match s_addl d, s_addl s with Some _, Some _ => None | a, b => Some (first_opt a b) end),
-          (match s_items d, s_items s with Some _, Some _ => None | a, b => Some (first_opt a b) end) with
-    | Some addl, Some items =>
-        (* additionalProperties:false is a non-nil pointer too *)
-        if (s_addl_false d && (s_addl_false s || match s_addl s with Some _ => true | None => false end))
-           || (s_addl_false s && match s_addl d with Some _ => true | None => false end) then None
-        else Some (Sch (merge_con (s_con d) (s_con s)) (s_props d ++ s_props s) addl (s_addl_false d || s_addl_false s) items
-                       (s_all_of d ++ s_all_of s) (s_any_of d ++ s_any_of s))
-    | _, _ => None
-    end.
+(* one mergo.Merge(result, branch).  A property (or items / additionalProperties schema) present on both sides is merged
+   through the pointer, field by field, by the same rules (deep merge); [fuel] bounds the nesting depth. *)
+Fixpoint omapo {A B} (f : A -> option B) (l : list A) : option (list B) :=
+  match l with
+  | [] => Some []
+  | x :: r => match f x, omapo f r with Some y, Some ys => Some (y :: ys) | _, _ => None end
+  end.
+
+Fixpoint merge2 (fuel : nat) (d s : schema) {struct fuel} : option schema :=
+  match fuel with
+  | O => None
+  | S f =>
+      let sub (a b : option schema) : option (option schema) :=
+        match a, b with
+        | Some x, Some y => match merge2 f x y with Some m => Some (Some m) | None => None end
+        | _, _ => Some (first_opt a b)
+        end in
+      match omapo (fun kv : str * schema =>
+                     match lookup (fst kv) (s_props s) with
+                     | Some sp => match merge2 f (snd kv) sp with Some m => Some (fst kv, m) | None => None end
+                     | None => Some kv
+                     end) (s_props d),
+            sub (s_addl d) (s_addl s), sub (s_items d) (s_items s) with
+      | Some dprops, Some addl, Some items =>
+          (* additionalProperties:false is a non-nil pointer too (to a schema that cannot be written in the model) *)
+          if (s_addl_false d && (s_addl_false s || match s_addl s with Some _ => true | None => false end))
+             || (s_addl_false s && match s_addl d with Some _ => true | None => false end) then None
+          else Some (Sch (merge_con (s_con d) (s_con s))
+                         (dprops ++ filter (fun kv => negb (mem (fst kv) (map fst (s_props d)))) (s_props s))
+                         addl (s_addl_false d || s_addl_false s) items
+                         (s_all_of d ++ s_all_of s) (s_any_of d ++ s_any_of s))
+      | _, _, _ => None
+      end
+  end.
+
+Definition merge_fuel : nat := 12.
 
 Fixpoint merge_into (d : schema) (bs : list schema) : option schema :=
   match bs with
   | [] => Some d
-  | b :: r => match merge2 d b with Some d' => merge_into d' r | None => None end
+  | b :: r => match merge2 merge_fuel d b with Some d' => merge_into d' r | None => None end
   end.
 
 (* isPrimitiveTypeList (model.go): all branches of primitive type: nothing is merged *)
